@@ -426,7 +426,7 @@ def check_C16(tier, seed):
     stats = autosmt.Stats()
     mir = mirsym.dump_mir()
     # E1 for make_dot_string_constant (well-terminated DOT string for all ASCII strings up to N bytes)
-    N = 4 if tier == 'quick' else 6
+    N = 8 if tier == 'quick' else 12
     cgvp = common.Cgv()
     ktext = mirsym.function_text(mir, 'make_dot_string_constant')
     nvalid = e1.validate_translator(cgvp, {'dot': ktext}, seed)
@@ -776,7 +776,7 @@ def check_C07(tier, seed):
     common.ensure_built()
     t0 = time.time()
     stats = autosmt.Stats()
-    N = 4 if tier == 'quick' else 6
+    N = 8 if tier == 'quick' else 12
     mir = mirsym.dump_mir()
     cgvp = common.Cgv()
     shells = ('bash', 'fish', 'zsh', 'pwsh')
